@@ -44,7 +44,10 @@ RULE = ("text stream: every truncation of hand-written documents and of tests/fi
         "ResolverErrors raised while a value is COMPLETED (resolve_type of abstract types, lazy iterables failing mid-iteration, custom serialisers) "
         "at object/list/leaf positions; @skip/@include on fields, inline fragments and spreads whose condition only fails at execution time "
         "(root and nested, below lists); numeric extremes (inf, nan, 1e308, 10**400, 2**31, denormals...) as variables and literals for Int/Float/ID/"
-        "Boolean/custom scalars; execution-time argument coercion failures under lists of 2-4 items on all 4 configurations; non-trivial = distinct "
+        "Boolean/custom scalars; execution-time argument coercion failures under lists of 2-4 items on all 4 configurations; DETERMINISTIC class linechars: U+2028 / U+2029 / U+0085 "
+        "(line boundaries for str.splitlines, NOT GraphQL LineTerminators) inside a string, a block string and a comment BEFORE the position of a syntax / "
+        "validation / variable-coercion / field error, VT/FF/FS/GS/RS as non-source characters, the same characters in the index_to_loc / splitLines "
+        "correspondence sample; non-trivial = distinct "
         "(text, operation name, variables, world) whose response has errors, or whose data has depth >= 2")
 ASSUMPTIONS = [
     "resolvers return values their field type can serialise, or raise the library's ResolverError; any other exception "
@@ -792,6 +795,40 @@ MALFORMED = [
     "\"\"\"d\"\"\" { a }", "{ a }\r# trailing comment without newline é", "\ud800", "{ a(s: \"\\uD800\") }", "{ a(s: \"\ud800\") }",
 ]
 
+# Characters that Python's str.splitlines / re `$` / the Unicode line-breaking rules treat as line boundaries but that are NOT
+# GraphQL LineTerminators (spec 2.1.4: LF | CR | CRLF only). U+2028, U+2029, U+0085 are legal SourceCharacters (>= U+0020) inside
+# strings, block strings and comments; VT, FF, FS, GS, RS are not SourceCharacters at all (syntax error AT the character).
+NON_TERMINATORS = [("u2028", "\u2028"), ("u2029", "\u2029"), ("u0085", "\x85")]
+CONTROL_NON_TERMINATORS = [("vt", "\x0b"), ("ff", "\x0c"), ("fs", "\x1c"), ("gs", "\x1d"), ("rs", "\x1e")]
+
+
+def line_char_requests():
+    """DETERMINISTIC class `linechars`: each non-terminator inside a string literal, a block string and a comment, BEFORE the place
+    where a syntax / validation / variable-coercion / field error is located (and once after it) -> (tag, text, variables, world)"""
+    raising = {"seed": 3, "p_raise": 1.0, "p_null": 0.0, "p_null_nn": 0.0}
+    quiet = {"seed": 1, "p_raise": 0.0, "p_null": 0.0, "p_null_nn": 0.0}
+    out = []
+    for cname, c in NON_TERMINATORS:
+        body = "x%sy%s%sz" % (c, c, c)
+        holders = [("string", 'a(s: "%s")' % body, 'query($s: String = "%s", $x: Int!) { a(x: $x, s: $s) }' % body),
+                   ("block", 'a(s: """%s\n  w%s""")' % (body, c), 'query($s: String = """%s""", $x: Int!) { a(x: $x, s: $s) }' % body),
+                   ("comment", "a # %s\n" % body, "# %s\nquery($x: Int!) { a(x: $x) } # %s" % (body, c))]
+        for hname, sel, coerce_doc in holders:
+            tag = "%s:%s" % (cname, hname)
+            out.append((tag + ":syntax", "{ %s ? }" % sel, None, quiet))
+            out.append((tag + ":syntax-eof", "{ %s" % sel, None, quiet))
+            out.append((tag + ":validation", "{ %s zz }" % sel, None, quiet))
+            out.append((tag + ":validation-multiline", "{\r\n %s\r zz\n}" % sel, None, quiet))
+            out.append((tag + ":coercion", coerce_doc, {}, quiet))
+            out.append((tag + ":coercion-wrong", coerce_doc, {"x": "abc"}, quiet))
+            out.append((tag + ":field", "{ %s b o { id } }" % sel, None, raising))
+            out.append((tag + ":after-error", "{ zz %s }" % sel, None, quiet))
+    for cname, c in CONTROL_NON_TERMINATORS:
+        out.append((cname + ":string:syntax", '{ a(s: "x%sy") zz }' % c, None, quiet))
+        out.append((cname + ":comment:syntax", "{ a # x%sy\n zz }" % c, None, quiet))
+        out.append((cname + ":bare:syntax", "{ a %s zz }" % c, None, quiet))
+    return out
+
 
 def truncations(text, step=1):
     return [text[:i] for i in range(0, len(text) + 1, step)]
@@ -945,6 +982,13 @@ def _run(ctx, rng, pending):
         ctx.stat("text-len<%d" % (10 if len(t) < 10 else 100 if len(t) < 100 else 1000 if len(t) < 1000 else 10 ** 6))
         if len(pending) > 3000:
             flush(ctx, pending)
+    flush(ctx, pending)
+    # --- DETERMINISTIC class: non-terminator "line break" characters before the error position ------
+    for k, (tag, text, vs, w) in enumerate(line_char_requests()):
+        ctx.stat("linechars:" + tag.split(":")[-1])
+        for cfg in (["blocking", CONFIGS[1 + k % 3]] if k % 4 == 0 else ["blocking"]):
+            check_case(ctx, make_case("linechars", BASE_SDL, base, cfg, text, None, vs, w, note=tag,
+                                      form=["str", "doc", "str"][k % 3]), pending)
     flush(ctx, pending)
     # --- hand-written resolver worlds on the base schema ---------------------------------------
     hand = [
@@ -1195,6 +1239,9 @@ def line_structure_check(ctx, texts):
     """the model's `splitLines` / `indexToLoc` against Python's LINE_TERMINATOR.split and the real index_to_loc, all positions"""
     from py_gql._string_utils import index_to_loc
     sample = [t for t in texts if len(t) <= 60][:400] + ["a\r\nb", "\r\n\r\n", "\r\r\n\n\r", "a\rb\nc\r\nd", "\n", "\r", ""]
+    # characters Python's splitlines() / Unicode call line boundaries but GraphQL does not: they have width 1 and end no line
+    for _n, c in NON_TERMINATORS + CONTROL_NON_TERMINATORS:
+        sample += ["a%sb" % c, "%s" % c, "a%s\nb%s%s\r\nc%s\rd%s" % (c, c, c, c, c), '{ a(s: "x%sy") zz }' % c, "# %s\r\n{ a%s }" % (c, c)]
     reqs = [{"op": "lines", "text": O.cps(t)} for t in sample]
     for t, a in zip(sample, ctx.driver.ask(reqs)):
         ctx.count()
